@@ -412,6 +412,48 @@ def d48():
   return None if list(g.cost_coeffs) == [1, 0] else 'a rejected cost_coeffs assignment was stored: %s' % (g.cost_coeffs,)
 
 
+def d49():
+  try:
+    d = TDevice('t', 2, (0, 2), 0.5, 1.0, 10, 20, 2, [-4, 3])
+    r = d.r2t(np.array([-1, 1]))
+  except ValueError as e:
+    return 'TDevice with integer-typed negative external temperatures / flows raises ValueError: %s' % str(e)[:60]
+  return None if close(d.t_base, [3., 3.]) else 't_base %s' % d.t_base
+
+
+def d50():
+  ds = SubBalancedDeviceSet('root', [Device('he', 2, (-5, 5)), MFDeviceSet(Device('m', 2, (0, 5)), ['e', 'h']), Device('x_e', 2, (-5, 5))], None, labels=['.e'])
+  return None if ds.labelled_sets == [[1]] else "label '.e' is treated as a regular expression: rows %s are balanced, only row 1 ('root.m.e') ends with '.e'" % ds.labelled_sets
+
+
+def d51():
+  out = []
+  x = np.array([1., 2., 3.])
+  for name, f in [('CobbDouglas', CobbDouglas(np.array([1., 2., 3.]))), ('InformationEntropy', InformationEntropy()), ('TemporalVariance', TemporalVariance())]:
+    if np.array(f.deriv(x)).shape != (3,):
+      out.append('%s.deriv has shape %s' % (name, np.array(f.deriv(x)).shape))
+  try:
+    SumFunction([CobbDouglas(np.array([1., 2., 3.])), Poly2D([[1, 0]]*3)]).deriv(x)
+  except ValueError:
+    out.append('SumFunction([CobbDouglas, Poly2D]).deriv raises ValueError')
+  for name, f in [('X2D([Poly1D])', X2D([Poly1D(np.poly1d([1, 2, 3]))]*3)), ('InnerSumFunction(Poly1D)', InnerSumFunction(Poly1D(np.poly1d([1, 2, 3]))))]:
+    try:
+      h = np.array(f.hess(x))
+      if h.shape != (3, 3): out.append('%s.hess shape %s' % (name, h.shape))
+    except ValueError:
+      out.append('%s.hess raises ValueError' % name)
+  return None if not out else '; '.join(out)
+
+
+def d52():
+  from device_kit.projection import Intersection, Slice, HalfSpace, HyperCube
+  R = Intersection(Intersection(Slice([1, -.5, -1, -2.75, 0], -31/8, 1/8), HalfSpace([0, -4, 0, -7, -4], 2.5, +2)),
+                   HyperCube(np.stack(([39/16, -95/32, 11/32, 17/16, -87/32], [51/16, 25/32, 51/32, 73/16, 1/32]), axis=1)))
+  x = R.project([-5.5, -.25, 3.5, -.5, -1.25])
+  best = np.array([2.4375, -0.7421875, 1.59375, 1.0625, -1.7421875])
+  return None if np.allclose(x, best, atol=1e-6) else 'nested Intersection.project is feasible but not nearest: returned %s, nearest %s' % (np.array(x).round(6).tolist(), best.tolist())
+
+
 if __name__ == '__main__':
   names = [a for a in sys.argv[2:]] or sorted(k for k in globals() if k[0] == 'd' and k[1:3].isdigit())
   bad = 0
